@@ -463,6 +463,15 @@ def run(tier, seed, only=None):
     _dfs.run_plans(PROPERTY, "harness.consumer:ConsumerWorld",
                    [("consumer-buffer-growth", cfgs, (0, 0, 0) if tier == "quick" else (1, 0, 1))],
                    seed, "", [], rep=rep)
+    # consumer half, in situ: bit errors in flight in the 1st/2nd/3rd message of any fetch answer (plain messages
+    # and compressed wrappers, both formats): what reaches the processor is exactly what the log holds
+    from checks import C02
+    ccfgs = [dict(c, menu={"corrupt": [0, 1, 2], "proc_early": True}, check_delivery=True, expect_start_failure=True)
+             for c in C02.configs(tier, {})
+             if c["start"] in ("earliest", 3, 1002)]
+    _dfs.run_plans(PROPERTY, "harness.consumer:ConsumerWorld",
+                   [("consumer-bit-errors-in-flight", ccfgs, (2, 1, 2) if tier == "quick" else (3, 1, 4))],
+                   seed, "", [], rep=rep, max_steps=400)
     rep.level = "fault_enumeration"
     rep.coverage["burst_cap"] = ("bursts up to %d bits; all interior patterns up to %d bits, patterns {none, "
                                  "all, alternating} above" % (lmax, pmax))
@@ -474,7 +483,9 @@ def run(tier, seed, only=None):
         "each of %r under a traced-line and tracemalloc budget linear in the input; all strings of length <= 5 "
         "over {00,01,7f,80,ff} into every decoder; consumer half: the real Consumer on the (initial buffer, "
         "maximum, message size) grid of C14 must grow its fetch size by the documented rule, fail only when the "
-        "maximum is too small and deliver the big message.  Distinct non-trivial = distinct (set, message, fault kind, "
+        "maximum is too small and deliver the big message; and with a bit error injected in flight into the "
+        "1st/2nd/3rd message of any fetch answer (every C02 log, both formats, sync and async processor) deliver "
+        "exactly the log's entries, each once.  Distinct non-trivial = distinct (set, message, fault kind, "
         "burst length) / (decoder, verdict class, fault kind) classes." % (
             len(sets), len(valid_responses()), HOSTILE))
     rep.assumptions = ["compression bombs are out of scope (the statement is about length fields)",
